@@ -24,7 +24,7 @@ import (
 
 func TestMain(m *testing.M) {
 	kit.Register("faults", faultsOracle)
-	kit.Describe("case = (configuration, optionally plus a user-supplied node renderer for ThematicBreak and CodeSpan that checks every write and returns the writer's error, document (large ones always contain a unit that reaches WriteRune / WriteByte / WriteString paths: numeric references to multi-byte code points, entities, titles, alt texts), API in {Convert, Parse+Render}, writer kind in {plain io.Writer, io.Writer that also has WriteByte/WriteString/WriteRune, caller bufio of 16/4096/65536 bytes}, fault mode in {fail from offset k on, fail always, fail once then succeed}); for outputs <= 600 bytes every offset k in 0..len+1 is enumerated, for large outputs (5-40 KiB) every offset within 3 bytes of a multiple of 4096 plus an arithmetic grid drawn by the generator; oracle: writer reported failure => error non-nil and errors.Is(err, injected), bytes accepted before the first failure are a prefix of the fault-free output, no panic; no failure => nil error and identical bytes; after all fault runs of a case the same instance converts a further document and must agree with a fresh instance; evaluations = fault runs; non-trivial = a case with at least one offset strictly inside the output; distinct by hash of the case",
+	kit.Describe("case = (configuration, optionally plus a user-supplied node renderer for ThematicBreak and CodeSpan that checks every write and returns the writer's error, document (large ones always contain a unit that reaches WriteRune / WriteByte / WriteString paths: numeric references to multi-byte code points, entities, titles, alt texts), API in {Convert, Parse+Render}, writer kind in {plain io.Writer, io.Writer that also has WriteByte/WriteString/WriteRune, the caller's own unbuffered util.BufWriter implementation (no sticky error), caller bufio of 16/4096/65536 bytes}, fault mode in {fail from offset k on, fail always, fail once then succeed}); for outputs <= 600 bytes every offset k in 0..len+1 is enumerated, for large outputs (5-40 KiB) every offset within 3 bytes of a multiple of 4096 plus an arithmetic grid drawn by the generator; oracle: writer reported failure => error non-nil and errors.Is(err, injected), bytes accepted before the first failure are a prefix of the fault-free output, no panic; no failure => nil error and identical bytes; after all fault runs of a case the same instance converts a further document and must agree with a fresh instance; evaluations = fault runs; non-trivial = a case with at least one offset strictly inside the output; distinct by hash of the case",
 		"the injected error is compared with errors.Is; its identity is a case dimension: a private sentinel, io.ErrShortWrite (plain and wrapped), io.EOF, io.ErrUnexpectedEOF, io.ErrClosedPipe, an error with Timeout/Temporary methods", "a fault run that does not terminate (watchdog, reproduced in isolation) is a violation: Convert has to return the error")
 	kit.Main(m, "C14")
 }
@@ -100,6 +100,23 @@ func (w richWriter) WriteByte(c byte) error {
 func (w richWriter) WriteString(s string) (int, error) { return w.faultWriter.Write([]byte(s)) }
 func (w richWriter) WriteRune(r rune) (int, error)     { return w.faultWriter.Write([]byte(string(r))) }
 
+// ownBufWriter is a destination that satisfies util.BufWriter itself - a caller's own buffered-writer type - but,
+// unlike bufio.Writer, does not remember a failure: every call is passed straight on and Flush has nothing pending.
+// Render uses such a destination directly instead of wrapping it.
+type ownBufWriter struct{ *faultWriter }
+
+func (w ownBufWriter) Available() int { return 0 }
+func (w ownBufWriter) Buffered() int  { return 0 }
+func (w ownBufWriter) Flush() error   { return nil }
+func (w ownBufWriter) WriteByte(c byte) error {
+	_, err := w.faultWriter.Write([]byte{c})
+	return err
+}
+func (w ownBufWriter) WriteString(s string) (int, error) { return w.faultWriter.Write([]byte(s)) }
+func (w ownBufWriter) WriteRune(r rune) (int, error)     { return w.faultWriter.Write([]byte(string(r))) }
+
+var _ util.BufWriter = ownBufWriter{}
+
 // strictRenderer is a user-supplied node renderer that, unlike the built-in ones, checks the result of
 // every write and returns the writer's error to Render (the documented way for a NodeRendererFunc to fail).
 type strictRenderer struct{}
@@ -157,6 +174,9 @@ func runOnce(cfg gen.Config, src []byte, api, wrap int, fw *faultWriter, strict 
 	var w io.Writer = fw
 	if wrap == -1 {
 		w = richWriter{fw}
+	}
+	if wrap == -2 {
+		w = ownBufWriter{fw}
 	}
 	var bw *bufio.Writer
 	if wrap > 0 {
@@ -330,7 +350,7 @@ func TestFaults(t *testing.T) {
 		src, class := gen.Doc(t, gen.Any, 24, "d")
 		c := kit.NewCase("faults", cfg.String()).B("src", src)
 		c.I("api", int64(rapid.IntRange(0, 1).Draw(t, "api")))
-		c.I("wrap", int64(rapid.SampledFrom([]int{0, 0, -1, 16, 4096, 65536}).Draw(t, "wrap")))
+		c.I("wrap", int64(rapid.SampledFrom([]int{0, 0, -1, -2, 16, 4096, 65536}).Draw(t, "wrap")))
 		c.I("mode", int64(rapid.SampledFrom([]int{0, 0, 0, 0, 1, 2}).Draw(t, "mode")))
 		if rapid.IntRange(0, 3).Draw(t, "strict") == 0 {
 			c.I("strict", 1)
